@@ -247,14 +247,31 @@ func (d *c06Data) announce(w *World, p *Peer) {
 		tag = "partial-remove"
 		doRemove(pick())
 	case k < 7:
+		// several unrelated entities in one notification, additions and removals in any order
 		tag = "partial-add-and-remove"
-		a, b := pick(), pick()
-		if eqUints(a, b) || (len(b) > 1 && eqUints(b[:1], a)) || (len(a) > 1 && eqUints(a[:1], b)) {
-			return
+		var used [][]uint
+		n := 2 + w.T.Choose(2, "mixed-entries")
+		for i := 0; i < n; i++ {
+			a := pick()
+			related := false
+			for _, b := range used {
+				if eqUints(a, b) || (len(b) > 1 && eqUints(b[:1], a)) || (len(a) > 1 && eqUints(a[:1], b)) {
+					related = true
+				}
+			}
+			if related {
+				continue
+			}
+			used = append(used, a)
+			if w.T.Bool(1, 2, "mixed-remove") {
+				doRemove(a)
+			} else {
+				doAdd(a)
+			}
 		}
-		doAdd(a)
-		doRemove(b)
-		w.Probe("c06-add-and-remove-in-one-notification")
+		if len(items) > 1 {
+			w.Probe("c06-add-and-remove-in-one-notification")
+		}
 	default:
 		// full notification: the complete tree after adding and removing some entities;
 		// entities that stay are announced unchanged
